@@ -132,6 +132,7 @@ func runC14(s *kernel.Sim, prod bool) {
 	if s.Choose("sched", 3) != 0 {
 		s.Sched = kernel.SchedPriority
 	}
+	s.StallPermille = []int{0, 25, 70}[s.Choose("stallrate", 3)]
 	cancelRate := []int{0, 0, 30, 120}[s.Choose("cancelRate", 4)]
 
 	s.GoBG("serveA", func() { ra.Serve() })
